@@ -445,7 +445,7 @@ func genState(o hreg.Opts, w *bufio.Writer) error {
 		return err
 	}
 	fmt.Fprintf(w, "keys %s\n", joinKeys())
-	nSeq := o.Pick(10, 200) // per fork and preset
+	nSeq := o.Pick(10, 60) // per fork and preset
 	nSteps := o.Pick(24, 60)
 	total := 0
 	for _, p := range cfgs {
